@@ -20,6 +20,8 @@ pub mod common {
 }
 
 pub mod props {
+    #[path = "/verif/harness/src/props/c01.rs"]
+    pub mod c01;
     #[path = "/verif/harness/src/props/c02.rs"]
     pub mod c02;
     #[path = "/verif/harness/src/props/c04.rs"]
@@ -29,6 +31,7 @@ pub mod props {
 }
 
 mod areader;
+mod t01;
 mod t02;
 mod t04;
 mod t20;
@@ -61,6 +64,7 @@ fn main() {
         ctx.replay_mode = true;
         let kind = v["kind"].as_str().unwrap_or("").to_string();
         let fails = match id.as_str() {
+            "C01" => t01::replay(&ctx, &kind, &v["case"]),
             "C02" => t02::replay(&ctx, &kind, &v["case"]),
             "C04" => t04::replay(&ctx, &kind, &v["case"]),
             "C20" => t20::replay(&ctx, &kind, &v["case"]),
@@ -91,6 +95,7 @@ fn main() {
     ctx.evidence_path = Some(format!("/verif/target/tokio-{}.json", id));
     ctx.replay_tag = "tokio-";
     match id.as_str() {
+        "C01" => t01::run(&ctx),
         "C02" => t02::run(&ctx),
         "C04" => t04::run(&ctx),
         "C20" => t20::run(&ctx),
